@@ -8,14 +8,14 @@ use crate::pool::Merged;
 use crate::printer;
 use crate::refint::End;
 use crate::shard::{Shard, Tier};
-use nederlang::verif::{Expr, Stmt};
+use nederlang::verif::{Expr, Operator, Stmt};
 use serde_json::{json, Value};
 
 pub fn prop() -> Prop {
     Prop {
         id: "C13",
         level: "exploration",
-        rule: "(1) all sequences up to depth d of array/string operations over three names: declare an array (length 0-3) or a string (0-3 characters drawn from 1-, 2-, 3- and 4-byte code points), alias, nest, read at the boundary indices, write, lengte, pass to a function that writes, each followed by a dump of every name through every alias, rendered as one program and compared with the reference interpreter; (2) the complete index sweep: every length 0..6 x every index -(len+2)..(len+2) x {get, set, set with a wrong-typed value, failed access followed by a re-read of every element} on arrays and on strings of every character-width mix; every value type as index and as stored value; (3) self-consistency where the model is silent (an element of a string replaced by zero or several characters, 16 strings x every index x 9 replacements x a second replacement): the printed text, lengte and character-by-character reading from both ends must describe the same string and the first index outside it must be refused. Non-trivial = the program performs at least one indexed access and is defined by the model; distinct = distinct texts",
+        rule: "(1) all sequences up to depth d of array/string operations over three names: declare an array (length 0-3) or a string (0-3 characters drawn from 1-, 2-, 3- and 4-byte code points), alias, nest, read at the boundary indices, write, lengte, pass to a function that writes, each followed by a dump of every name through every alias, rendered as one program and compared with the reference interpreter; (2) the complete index sweep: every length 0..6 x every index -(len+2)..(len+2) x {get, set, set with a wrong-typed value, failed access followed by a re-read of every element} on arrays and on strings of every character-width mix; every value type as index and as stored value; (2b) length ladders: strings and arrays of every length around each power of two up to 257, strings in every pattern 'ASCII with one 2-, 3- or 4-byte character at position p' and all-wide: every index read from the front and the back in a loop, writes around the wide character and at both ends dumped through an alias; (3) self-consistency where the model is silent (an element of a string replaced by zero or several characters, 16 strings x every index x 9 replacements x a second replacement): the printed text, lengte and character-by-character reading from both ends must describe the same string and the first index outside it must be refused. Non-trivial = the program performs at least one indexed access and is defined by the model; distinct = distinct texts",
         assumptions: &["string aliasing and non-character replacement are unspecified (U8) and excluded", "reference semantics of arrays and code-point indexing of strings as in refint (DESIGN 4.2)"],
         run,
         replay,
@@ -320,8 +320,129 @@ fn self_consistency(sh: &mut Shard) {
     }
 }
 
+/// Length ladders: strings and arrays of every length around each power of two up to 257 (1025 thorough);
+/// strings in every width pattern "ASCII with ONE wide character (2, 3 or 4 bytes) at position p" for every p,
+/// plus all-wide; one program reads every index from the front and from the back, others write at the
+/// positions around p and at both ends and dump the result through an alias. Compared with the model.
+fn length_ladder(sh: &mut Shard) {
+    let tier = sh.cfg.tier;
+    let mut lens: Vec<usize> = Vec::new();
+    for k in 3..=(if tier == Tier::Quick { 8 } else { 10 }) {
+        let n = 1usize << k;
+        lens.extend([n - 1, n, n + 1]);
+    }
+    lens.extend([10, 12, 20, 24, 40, 48, 100]);
+    lens.sort();
+    let ascii = |i: usize| (b'a' + (i % 26) as u8) as char;
+    for len in lens {
+        // (description, text)
+        let mut subjects: Vec<String> = vec![(0..len).map(ascii).collect()];
+        for wide in ['é', '€', '😀'] {
+            subjects.push(std::iter::repeat(wide).take(len).collect());
+            let step = if tier == Tier::Quick && len > 70 { 1 + len / 64 } else { 1 };
+            // every position near a multiple of 8 bytes, and (short strings / thorough) every position
+            for p in 0..len {
+                let near = (0..=3).any(|d| (p + d) % 8 == 0 || (p + 8 - d) % 8 == 0);
+                if !(near || p % step == 0 || len <= 70) {
+                    continue;
+                }
+                subjects.push((0..len).map(|i| if i == p { wide } else { ascii(i) }).collect());
+            }
+        }
+        for text in &subjects {
+            if !sh.mine() {
+                continue;
+            }
+            let wide_at = text.chars().position(|c| !c.is_ascii()).unwrap_or(0) as i64;
+            let l = len as i64;
+            // reads of every index, front and back, in a loop (the index is a variable)
+            let read_all = vec![
+                let_("s", string(text)),
+                let_("t", id("s")),
+                let_("i", int(0)),
+                let_("out", array(vec![])),
+                es(whil(
+                    infix(id("i"), Operator::Lt, calln("lengte", vec![id("s")])),
+                    vec![
+                        es(calln("print", vec![string("{}{}"), index(id("s"), id("i")), index(id("t"), infix(infix(int(0), Operator::Subtract, id("i")), Operator::Subtract, int(1)))])),
+                        es(op_assign("i", Operator::Add, int(1))),
+                    ],
+                )),
+                es(calln("lengte", vec![id("s")])),
+            ];
+            let _ = &read_all[3];
+            sh.begin(&|| format!("length ladder: {} characters, wide character at {wide_at}", len));
+            sh.count("family:length-ladder");
+            if let Some(r) = differential(sh, "length-ladder", &read_all, RunOpts { budget: Some(2_000_000), ledger: true, trace: false, render: true }) {
+                if !matches!(r.model.end, End::Unspec(_) | End::Diverge) {
+                    sh.nontrivial(&(len, text));
+                }
+            }
+            // writes around the wide character and at both ends, each followed by a dump through an alias
+            let mut targets: Vec<i64> = vec![0, l - 1, -1, -l, wide_at - 1, wide_at, wide_at + 1, wide_at + 2];
+            targets.retain(|i| *i >= -l && *i < l);
+            targets.sort();
+            targets.dedup();
+            for rep in ["#", "ß"] {
+                let mut prog = vec![let_("s", string(text)), let_("t", array(vec![id("s")]))];
+                for i in &targets {
+                    prog.push(es(assign(index(id("s"), int_lit(*i)), string(rep))));
+                    prog.push(es(calln("print", vec![index(id("t"), int(0))])));
+                }
+                prog.push(es(calln("lengte", vec![id("s")])));
+                sh.count("family:length-ladder");
+                differential(sh, "length-ladder", &prog, RunOpts { budget: Some(2_000_000), ledger: true, trace: false, render: true });
+            }
+        }
+        // arrays: read every element in a loop, write at both ends and in the middle, grow by nesting
+        if sh.mine() {
+            let l = len as i64;
+            let prog = vec![
+                let_("a", array((0..len).map(|i| int(1000 + i as i64)).collect())),
+                let_("b", id("a")),
+                let_("i", int(0)),
+                let_("sum", int(0)),
+                es(whil(
+                    infix(id("i"), Operator::Lt, calln("lengte", vec![id("a")])),
+                    vec![
+                        es(op_assign("sum", Operator::Add, infix(index(id("a"), id("i")), Operator::Multiply, infix(id("i"), Operator::Add, int(1))))),
+                        es(op_assign("sum", Operator::Subtract, index(id("b"), infix(infix(int(0), Operator::Subtract, id("i")), Operator::Subtract, int(1))))),
+                        es(op_assign("i", Operator::Add, int(1))),
+                    ],
+                )),
+                es(assign(index(id("a"), int(0)), string("eerste"))),
+                es(assign(index(id("a"), int_lit(-1)), string("laatste"))),
+                es(assign(index(id("b"), int(l / 2)), array(vec![id("a")]))),
+                es(calln("print", vec![id("sum"), index(id("b"), int(0)), index(id("b"), int(l - 1)), calln("lengte", vec![index(id("a"), int(l / 2))]), calln("lengte", vec![id("b")])])),
+                es(index(id("a"), int(l))),
+            ];
+            sh.begin(&|| format!("length ladder: array of {len}"));
+            sh.count("family:length-ladder");
+            if differential(sh, "length-ladder", &prog, RunOpts { budget: Some(2_000_000), ledger: true, trace: false, render: true }).is_some() {
+                sh.nontrivial(&("array", len));
+            }
+        }
+    }
+}
+
 fn run(sh: &mut Shard) {
     let tier = sh.cfg.tier;
+    // a literal evaluated again is pristine, whatever its earlier value went through
+    for prog in crate::slices::literal_pristine_programs() {
+        if !sh.mine() {
+            continue;
+        }
+        sh.begin(&|| printer::program(&prog));
+        sh.count("family:literal-pristine");
+        if let Some(r) = differential(sh, "sequences", &prog, opts()) {
+            if !matches!(r.model.end, End::Unspec(_) | End::Diverge) {
+                sh.nontrivial(&printer::program(&prog));
+            } else {
+                sh.count("literal-pristine-unspecified");
+            }
+        }
+    }
+    length_ladder(sh);
     sweep(sh);
     self_consistency(sh);
     sequences(sh, if tier == Tier::Quick { 3 } else { 4 });
@@ -337,7 +458,7 @@ fn replay(sh: &mut Shard, case: &Value) {
 }
 
 fn vacuity(m: &Merged) -> Option<String> {
-    for fam in ["sweep", "sweep-types", "self-consistency", "sequences"] {
+    for fam in ["sweep", "sweep-types", "length-ladder", "self-consistency", "sequences"] {
         if m.counters.get(&format!("family:{fam}")).copied().unwrap_or(0) < 100 {
             return Some(format!("family {fam} produced fewer than 100 cases"));
         }
